@@ -1,0 +1,13 @@
+//go:build verif
+
+package wasm
+
+// VerifYieldHook, when set by a verification harness (build tag `verif` only), is called between the atomic steps
+// of closing and registering a module so that the harness can force a chosen interleaving.
+var VerifYieldHook func(point string, m *ModuleInstance)
+
+func verifYield(point string, m *ModuleInstance) {
+	if h := VerifYieldHook; h != nil {
+		h(point, m)
+	}
+}
